@@ -448,6 +448,67 @@ fn main() {
             }
         },
     );
+    // every integer point of a small window against every pair of short edge lists, as an owned point and as
+    // a reversed view (one insert into a fresh histogram each): coordinates that are equal on both axes,
+    // points just below an interior edge, axes with the same number of bins but different edges
+    let dlists: Vec<usize> = vec![2, 3, 4, 5, 8];
+    let dcases = dlists.clone().into_iter().flat_map(move |a| dlists.clone().into_iter().map(move |b| (a, b)));
+    rep.run_sub(
+        "dense-points",
+        "every ordered pair of the edge lists [0,4], [0,4,8], [0,2,8], [8,0,4,4], [4,0,8,4] x every integer point (x, y) with -1 <= x, y <= 9, as an owned array, as a reversed view of the reversed coordinates and as a stepped view; i32 and N64: one add_observation into a fresh histogram - accepted exactly when both coordinates lie in a bin, and then that cell alone holds 1",
+        dcases,
+        |(a, b), lx| {
+            lx.nontrivial(a != b);
+            lx.single(|lx| {
+                let mut obs = Vec::new();
+                macro_rules! go {
+                    ($t:ty) => {{
+                        let model: HistModel<$t> = HistModel::new(&[*a, *b], 1);
+                        for x in -1..=9i32 {
+                            for y in -1..=9i32 {
+                                let want = model.ref_cell(&[x, y]);
+                                let pt: Vec<$t> = vec![<$t as HE>::mk(x), <$t as HE>::mk(y)];
+                                for variant in 0..3u8 {
+                                    let mut h = Histogram::new(model.grid());
+                                    let r = match variant {
+                                        0 => guarded(|| h.add_observation(&Array1::from(pt.clone())).is_ok()),
+                                        1 => {
+                                            let back = Array1::from(vec![pt[1].clone(), pt[0].clone()]);
+                                            let v = back.slice(ndarray::s![..;-1]);
+                                            guarded(|| h.add_observation(&v).is_ok())
+                                        }
+                                        _ => {
+                                            let wide = Array1::from(vec![pt[0].clone(), <$t as HE>::mk(5), pt[1].clone()]);
+                                            let v = wide.slice(ndarray::s![..;2]);
+                                            guarded(|| h.add_observation(&v).is_ok())
+                                        }
+                                    };
+                                    match r {
+                                        Err(m) => lx.fail("C11/panic", || format!("[{}] grid over lists {} x {}: add_observation of ({}, {}) (variant {}) panicked: {}", <$t as HE>::NAME, a, b, x, y, variant, m)),
+                                        Ok(accepted) => {
+                                            lx.check(accepted == want.is_some(), if want.is_some() { "C11/inside-point-rejected" } else { "C11/outside-point-accepted" }, || format!("[{}] grid over lists {} x {}: point ({}, {}) (variant {}: 0 owned, 1 reversed view, 2 stepped view) accepted = {}, its cell is {:?}", <$t as HE>::NAME, a, b, x, y, variant, accepted, want));
+                                            let counts = h.counts();
+                                            let total: usize = counts.iter().sum();
+                                            lx.check(total == want.is_some() as usize, "C11/counts-wrong", || format!("[{}] grid over lists {} x {}: after inserting ({}, {}) the counts sum to {}", <$t as HE>::NAME, a, b, x, y, total));
+                                            if let Some(cell) = &want {
+                                                if counts.ndim() == 2 && cell[0] < counts.shape()[0] && cell[1] < counts.shape()[1] {
+                                                    lx.check(counts[[cell[0], cell[1]]] == 1, "C11/counts-wrong", || format!("[{}] grid over lists {} x {}: ({}, {}) belongs to cell {:?}, which holds {}", <$t as HE>::NAME, a, b, x, y, cell, counts[[cell[0], cell[1]]]));
+                                                }
+                                            }
+                                            obs.push(accepted);
+                                        }
+                                    }
+                                }
+                            }
+                        }
+                    }};
+                }
+                go!(i32);
+                go!(N64);
+                hash_of(&obs)
+            });
+        },
+    );
     // long observation matrices (the matrix form may work in blocks): bulk vs incremental vs reference
     rep.dispatch_chunk = 4;
     let rmax = rep.cfg.pick(300, 1100);
